@@ -90,23 +90,24 @@ theorem get_final_hash (c : Case) (hwf : wf c = true) (hE : expectErr c = false)
 def hookedVisible (c : Case) : Bool := c.attrsBase == .hooked && (!sSlots c || !c.plainMid)
 
 /-- `__setattr__`: told value; else `object.__setattr__` when an attrs-made `__setattr__` is inherited and
-    no own one was auto-detected; else untouched -/
+    the body binds none of its own (whatever auto_detect says); else untouched -/
 theorem get_final_setattr (c : Case) (hwf : wf c = true) (hE : expectErr c = false) :
     (finalDict c).get "__setattr__" =
       match toldSlot c "__setattr__" with
       | some v => v
       | none =>
-        if hookedVisible c && !(sAuto c && owns c "__setattr__") then .objSetattr
+        if hookedVisible c && !owns c "__setattr__" then .objSetattr
         else untouched c "__setattr__" := by
   have hcmp := hcmp_of_wf c hwf
   have hN := noErr_of_expectErr c hE
   have hw := writeFor_eq_told c hcmp hN "__setattr__" (by decide)
-  have hc : (decisions c).hasCustom = (sAuto c && owns c "__setattr__") := hasCustomSetattr_eq c
+  have hc := dictOwnSetattr_case c
+  have hcs := has_classDict_setattr c
   unfold finalDict untouched hookedVisible
   cases hs : slots c
   · have hs' : sSlots c = false := by rw [← slots_eq]; exact hs
     simp only [Bool.false_eq_true, if_false]
-    rw [get_patchOriginal, hw, resetsDict_case c hwf, hc, hs']
+    rw [get_patchOriginal, resetsDict_case c hwf, hc, hw, hs']
     cases ht : toldSlot c "__setattr__" with
     | some v =>
       rw [wrote_of_writeFor_setattr (decisions c) v (by rw [hw, ht])]
@@ -119,13 +120,13 @@ theorem get_final_setattr (c : Case) (hwf : wf c = true) (hE : expectErr c = fal
         unfold wroteOwnSetattr
         cases h1 : (decisions c).hooks <;> cases h2 : (decisions c).isFrozen <;> simp_all
       rw [hwr]
-      cases c.attrsBase <;> cases (sAuto c && owns c "__setattr__") <;>
+      cases c.attrsBase <;> cases owns c "__setattr__" <;>
         simp +decide [ownSetattrKey, fieldNames]
   · have hs' : sSlots c = true := by rw [← slots_eq]; exact hs
     simp only [if_true]
     rw [get_createSlots, hw]
     unfold resetsSlots directOwnSetattr
-    rw [hc, hs']
+    rw [hcs, hs']
     cases ht : toldSlot c "__setattr__" with
     | some v =>
       rw [wrote_of_writeFor_setattr (decisions c) v (by rw [hw, ht])]
@@ -137,7 +138,7 @@ theorem get_final_setattr (c : Case) (hwf : wf c = true) (hE : expectErr c = fal
         unfold wroteOwnSetattr
         cases h1 : (decisions c).hooks <;> cases h2 : (decisions c).isFrozen <;> simp_all
       rw [hwr]
-      cases c.attrsBase <;> cases c.plainMid <;> cases (sAuto c && owns c "__setattr__") <;>
+      cases c.attrsBase <;> cases c.plainMid <;> cases owns c "__setattr__" <;>
         simp +decide [ownSetattrKey, slotsDropped, fieldNames]
 
 theorem untouched_eq (c : Case) (n : String) :
